@@ -294,17 +294,42 @@ done:
 static ares_status_t config_search(ares_sysconfig_t *sysconfig, const char *str,
                                    size_t max_domains)
 {
-  if (sysconfig->domains && sysconfig->ndomains > 0) {
-    /* if we already have some domains present, free them first */
-    ares_strsplit_free(sysconfig->domains, sysconfig->ndomains);
-    sysconfig->domains  = NULL;
-    sysconfig->ndomains = 0;
+  ares_status_t status;
+  ares_buf_t   *buf;
+  char        **domains  = NULL;
+  size_t        ndomains = 0;
+
+  /* A value without any domain in it (empty, only separators, unprintable) is
+   * a malformed line or environment variable: ignore it.  Only running out of
+   * memory is an error. */
+  if (ares_strlen(str) == 0) {
+    return ARES_SUCCESS;
   }
 
-  sysconfig->domains = ares_strsplit(str, ", ", &sysconfig->ndomains);
-  if (sysconfig->domains == NULL) {
+  buf = ares_buf_create_const((const unsigned char *)str, ares_strlen(str));
+  if (buf == NULL) {
     return ARES_ENOMEM;
   }
+
+  status = ares_buf_split_str(
+    buf, (const unsigned char *)", ", 2,
+    ARES_BUF_SPLIT_NO_DUPLICATES | ARES_BUF_SPLIT_CASE_INSENSITIVE, 0, &domains,
+    &ndomains);
+  ares_buf_destroy(buf);
+
+  if (status == ARES_ENOMEM) {
+    return status;
+  }
+
+  if (status != ARES_SUCCESS || ndomains == 0) {
+    ares_free_array(domains, ndomains, ares_free);
+    return ARES_SUCCESS;
+  }
+
+  /* if we already have some domains present, free them first */
+  ares_strsplit_free(sysconfig->domains, sysconfig->ndomains);
+  sysconfig->domains  = domains;
+  sysconfig->ndomains = ndomains;
 
   /* Truncate if necessary */
   if (max_domains && sysconfig->ndomains > max_domains) {
@@ -481,6 +506,11 @@ ares_status_t ares_sysconfig_set_options(ares_sysconfig_t *sysconfig,
   size_t        num;
   size_t        i;
   ares_status_t status;
+
+  /* Nothing to do for an empty string (e.g. RES_OPTIONS set but empty) */
+  if (ares_strlen(str) == 0) {
+    return ARES_SUCCESS;
+  }
 
   buf = ares_buf_create_const((const unsigned char *)str, ares_strlen(str));
   if (buf == NULL) {
